@@ -27,7 +27,9 @@ Fixpoint no_brace_escape (s : bytes) : bool :=
     else no_brace_escape r
   end.
 
-Definition quoted_safe (raw : bytes) : bool := negb (has_raw_ctl raw) && no_brace_escape raw.
+(* since c15_fix_raw-control-char a raw control character is no obstacle any more; [has_raw_ctl] is
+   kept for History.v *)
+Definition quoted_safe (raw : bytes) : bool := no_brace_escape raw.
 
 (* ---- block strings ---- *)
 Fixpoint has_escaped_triple (s : bytes) : bool :=
@@ -55,9 +57,10 @@ Fixpoint utf8_ok (skip : nat) (s : bytes) : bool :=
     end
   end.
 
+(* since c15_fix_block-blank-only and c15_fix_block-escaped-triple-quote neither an escaped triple
+   quote nor an all-blank text is an obstacle ([has_escaped_triple], [blank_only] kept for History.v) *)
 Definition block_safe (raw : bytes) : bool :=
-  go_block_lexable raw && negb (has_escaped_triple raw) && rescan_exact raw && negb (blank_only raw)
-  && utf8_ok O (block_string_value raw).
+  go_block_lexable raw && rescan_exact raw && utf8_ok O (block_string_value raw).
 
 (* ---- whole literals ---- *)
 Fixpoint go_safe_b (v : value) : bool :=
